@@ -417,9 +417,11 @@ Lemma adj_outer_reach ev s0 orig width starts best :
   ev_reach ev -> reach s0 orig -> reach s0 (b_args best) ->
   reach s0 (snd (adj_outer ev orig width starts best)).
 Proof.
-  intros Hev Ho. revert best. induction starts as [|st more IH]; intros best Hb; cbn; auto.
-  pose proof (adj_try_reach ev s0 orig width st best Hev Ho Hb) as Ht.
-  destruct (adj_try ev orig width st best); cbn in *; auto.
+  intros Hev Ho. revert best. induction starts as [|st0 more IH]; intros best Hb; cbn [adj_outer].
+  - destruct (set_scope (b_args best) (sc_start orig) (sc_end orig)) as [fin|] eqn:E; cbn [snd]; [|exact Ho].
+    eapply reach_trans; [exact Hb|eapply reach_scope; eauto].
+  - pose proof (adj_try_reach ev s0 orig width st0 best Hev Ho Hb) as Ht.
+    destruct (adj_try ev orig width st0 best); cbn in *; auto.
 Qed.
 
 Lemma adjacent_reach ev fi : ev_reach ev -> ev_reach (eval_adjacent ev fi).
